@@ -757,7 +757,7 @@ theorem binv_step (s : State) (op : Op) (hB : BInv s) : BInv (step s op).1 := by
     repeat' split
     all_goals first | exact hB | skip
     all_goals
-      rename_i orc hg _ _ _ _
+      rename_i orc hg _ _ _ _ _
       exact binv_of_BP (s := s) (by simp) (by simp only [applyRefresh_oracles]; exact BP_set s.oracles o orc _ hg rfl) hB
   | editBridger o b =>
     simp only [step]; unfold editBridgerStep
@@ -1096,7 +1096,7 @@ theorem vinv_step (s : State) (op : Op) (hop : opOk s op = true) (hV : VInv s) :
     repeat' split
     all_goals first | exact NoNew_refl _ | skip
     all_goals
-      rename_i orc hg _ _ _ _
+      rename_i orc hg _ _ _ _ _
       simp only [applyRefresh_oracles]
       exact NoNew_set s.oracles o orc _ hg
   | editBridger o b =>
